@@ -16,6 +16,8 @@ inductive KConst where
   | nil | tru | fls
   | int (n : Int)
   | refarr (id : Nat)          -- the one-element array behind a global var
+  | other (id : Nat)           -- any other constant that goes to the constant pool (string, keyword, non-int16 number,
+                               --   function, tuple ...), named by its index in the compiler model's value table
   deriving DecidableEq, Repr, Inhabited
 
 inductive Slot where
@@ -60,6 +62,7 @@ def MI.word : MI → Nat
     if -32768 ≤ n ∧ n ≤ 32767 then Op.loadInteger.toNat + d * 256 + imod n 65536 * 65536
     else Op.loadConstant.toNat + d * 256 + idx * 65536
   | .ldk d (.refarr _) idx => Op.loadConstant.toNat + d * 256 + idx * 65536
+  | .ldk d (.other _) idx => Op.loadConstant.toNat + d * 256 + idx * 65536
   | .ldref d idx _ => Op.loadConstant.toNat + d * 256 + idx * 65536
   | .geti0 a b => Op.getIndex.toNat + a * 256 + b * 65536
   | .puti0 a b => Op.putIndex.toNat + a * 256 + b * 65536
@@ -78,6 +81,7 @@ def MI.word : MI → Nat
 def KConst.pooled : KConst → Bool
   | .int n => !(-32768 ≤ n ∧ n ≤ 32767)
   | .refarr _ => true
+  | .other _ => true
   | _ => false
 
 /-- `janetc_movenear` -/
